@@ -381,30 +381,30 @@ func runR05_3(c *Ctx, r *R) {
 				return true
 			}
 			for _, format := range formats {
-			verbs := reVerb.FindAllString(format, -1)
-			for i, v := range verbs {
-				if v != "%d" {
-					continue
+				verbs := reVerb.FindAllString(format, -1)
+				for i, v := range verbs {
+					if v != "%d" {
+						continue
+					}
+					n++
+					pos := c.Fset.Position(bl.Pos())
+					key := fmt.Sprintf("generator.%s/%%d#%d", fn, n)
+					if i+1 >= len(call.Args) {
+						r.Bad(key, bl.Pos(), "template %q has no argument for %%d", format)
+						continue
+					}
+					arg := call.Args[i+1]
+					ok := isFieldTag(arg)
+					if id, isId := arg.(*ast.Ident); isId && tagIdents[gp.TypesInfo.Uses[id]] {
+						ok = true
+					}
+					_ = pos
+					if ok {
+						r.OK(key, bl.Pos(), "%%d <- field.Tag")
+					} else {
+						r.Bad(key, bl.Pos(), "the tag placeholder of template %q is filled with %s instead of the Tag of the field being emitted: the accessor reads/writes another field's tag", format, exprString(arg))
+					}
 				}
-				n++
-				pos := c.Fset.Position(bl.Pos())
-				key := fmt.Sprintf("generator.%s/%%d#%d", fn, n)
-				if i+1 >= len(call.Args) {
-					r.Bad(key, bl.Pos(), "template %q has no argument for %%d", format)
-					continue
-				}
-				arg := call.Args[i+1]
-				ok := isFieldTag(arg)
-				if id, isId := arg.(*ast.Ident); isId && tagIdents[gp.TypesInfo.Uses[id]] {
-					ok = true
-				}
-				_ = pos
-				if ok {
-					r.OK(key, bl.Pos(), "%%d <- field.Tag")
-				} else {
-					r.Bad(key, bl.Pos(), "the tag placeholder of template %q is filled with %s instead of the Tag of the field being emitted: the accessor reads/writes another field's tag", format, exprString(arg))
-				}
-			}
 			}
 			return true
 		})
